@@ -4,7 +4,7 @@ NOTES = ("All checks: ./check <id> --tier quick|thorough; setup builds the Coq d
          "and compiles the driver. known_findings.json lists recorded defects (kind known) and repaired ones (kind fixed).")
 NOT_APPLICABLE = {}
 # built, but their fix stage is in progress (model already in the repaired state, patches not yet committed to /repo)
-PENDING = {"C01", "C08", "C09", "C12", "C13", "C14"}
+PENDING = {"C01", "C07", "C08", "C09", "C10", "C12", "C13", "C14"}
 COMMON_NOTE = ("Trusted: Coq 8.16.1 kernel (+vm_compute), extraction (ExtrOcamlBasic, ExtrOcamlString), OCaml driver, the Python harness, "
                "CPython/torch as referents. Theorems are about the hand-written model; the model<->code tie is this run's differential "
                "correspondence, bounded by its generators (distribution in the evidence). ")
@@ -53,6 +53,22 @@ CHECKS = {
                 "validated against torch in every run. Known findings D3, D25, D30 are listed in known_findings.json.",
         "technique": "Coq theorems (induction on index tuples; invariant linking the code's two passes to torch's adjacent-subspace rule) + differential correspondence",
     },
+    "C07": {
+        "text": ("Proof (Coq) on a heap of storages (cell lists), views (storage id + index map) and tensordict nodes, for EVERY state reached by ANY "
+                 "history: operations documented in-place (update_/copy_, set_at_/update_at_, td[idx]=v, masked_fill_, fill_, zero_, apply_, "
+                 "underscore arithmetic, augmented assignment, set_) change no node, no binding and no storage size and write only storages behind the "
+                 "receiver's entries; a written cell is read back through every view of it (aliases observe); every other operation leaves all "
+                 "pre-existing storages bit-identical, also over sequences and when it raises; basic index / permute / transpose / squeeze / "
+                 "unsqueeze / expand / view / unbind / split give at every nested key a sub-view of the source's entry; copy / select / exclude / "
+                 "flatten_keys bind the very same entries; clone / to_tensordict / advanced index / neg, abs / apply give storage ids that did not "
+                 "exist before; contiguous follows torch's rule per entry. Tie: the model's op->class table is compared with a "
+                 "documentation-derived table; programs of construction, history and operation are run on real objects and on the extracted "
+                 "model and compared on canonical heaps; 278 call templates over 263 public names x 7 container kinds x 8 layouts x histories "
+                 "are judged by sentinel (write through one handle, read through the other) and storage oracles directly on the implementation."),
+        "note": COMMON_NOTE + "Lazy stacks, _SubTensorDict, tensorclass, memory-mapped and shared containers are covered by the oracle stream only. "
+                "Torch's kernel-level overlap refusal and view stride rules are excluded by name. Known findings in findings.d/C07.json.",
+        "technique": "Coq frame theorems over a register-machine heap model (well-formedness invariant over all histories) + canonical-heap differential + sentinel/data_ptr reflection oracles",
+    },
     "C08": {
         "text": ("Proof (Coq): a lazy stack denotes the dense stack (coordinate insertion) — for ANY rank, stack dim, member count and nesting depth, "
                  "`lazy[idx]` with any index made of ints, slices, None and one Ellipsis denotes `dense[idx]` (batch size, selected members, per-member "
@@ -78,6 +94,20 @@ CHECKS = {
         "note": COMMON_NOTE + "_foreach_* kernels and per-tensor torch ops trusted. Raises on non-core operand combinations are tolerated by the oracle "
                 "and pinned only by the model. Known findings in findings.d/C09.json.",
         "technique": "Coq theorems over a Gallina transcription of the alignment / broadcast / reduction code + plan-level correspondence + reflection oracle",
+    },
+    "C10": {
+        "text": ("Proof (Coq, partial): a Gallina codec of the memory-mapped directory format (per-directory meta.json records, <key>.memmap cells, "
+                 "sub-directories, lazy stacks / tensorclasses / NonTensorData / NonTensorStack by their _type, other.pickle) with decode(encode t) = t "
+                 "as a nested mapping for trees of ANY depth, width and class mix on the stated validity domain (refutation witnesses for the "
+                 "recorded defects outside it); `_memmap_` as a list of tasks: independent tasks commute and, for EVERY permutation of the writer "
+                 "tasks (induction over Permutation, no bound), from any state, the final mapping, files and directories are the same; a successful "
+                 "sequential run is the pool run in submission order; root-level make_memmap* on an existing directory loads back as the extended "
+                 "tree. Runtime behaviour named, not modelled: mmap coherence between mappings and processes, real preemption. Tie: in-process "
+                 "permuting executor (all completion orders for <= 5 tasks, worker exceptions surfaced), directory read back independently with "
+                 "torch.from_file / json / pickle and compared with `encode`, loader compared with `decode`, live-view stream in this process, "
+                 "in a forked and in a spawned child."),
+        "note": COMMON_NOTE + "share_non_tensor, jagged nested tensors and existsok=False are not covered. Known findings in findings.d/C10.json.",
+        "technique": "Coq theorems (codec round trip by tree induction; order-freedom by induction over Permutation) + permuting-executor and process-level differential runs",
     },
     "C12": {
         "text": ("Proof (Coq, partial): for EVERY n, chunksize, num_chunks, worker count, generator / shuffle mode, `_split_tensordict` yields "
